@@ -174,6 +174,12 @@ func run(propID, tier, root, verif, patchFile, onlyRule string, verbose, noSeeds
 		seededResults = runSeeded(prog, propID, root, verif, selected, all)
 	}
 
+	// behaviour-preserving refactorings (/verif/benign/*/patch.diff): the rules must stay silent
+	var benignResults []seedResult
+	if !noSeeds && patchFile == "" {
+		benignResults = runBenign(prog, root, verif, selected, all)
+	}
+
 	// thorough tier: mutation sweep over the anchored functions (informational)
 	var sweep *sweepResult
 	if n := sweepLimit; !noSeeds && patchFile == "" && (n > 0 || (n < 0 && tier == "thorough")) {
@@ -209,6 +215,11 @@ func run(propID, tier, root, verif, patchFile, onlyRule string, verbose, noSeeds
 	}
 	for _, s := range seededResults {
 		fmt.Fprintf(&rep, "seeded change %s: %s %s\n", s.Name, s.Status, s.Detail)
+	}
+	for _, s := range benignResults {
+		if s.Status != "silent" {
+			fmt.Fprintf(&rep, "SELFTEST benign change %s: %s %s\n", s.Name, s.Status, s.Detail)
+		}
 	}
 	if sweep != nil {
 		fmt.Fprintf(&rep, "mutation sweep: %d anchored functions, %d candidate mutants, %d sampled: %d do not compile, %d killed, %d survived (kill rate of compiling mutants %.0f%%)\n",
@@ -282,6 +293,7 @@ func run(propID, tier, root, verif, patchFile, onlyRule string, verbose, noSeeds
 			"seeds_stale":        stale,
 			"seed_results":       seedResults,
 			"seeded_changes":     seededResults,
+			"benign_changes":     benignResults,
 			"load_seconds":       loadSecs,
 			"exhaustive":         true,
 		},
@@ -413,6 +425,60 @@ func runSeeded(prog *load.Program, propID, root, verif string, selected []*core.
 			if len(hits) > 4 {
 				hits = hits[:4]
 			}
+			res.Detail = strings.Join(hits, " | ")
+		}
+		out = append(out, res)
+	}
+	return out
+}
+
+// runBenign applies every behaviour-preserving refactoring kept under /verif/benign in memory and reports whether the
+// property's rules stay silent on it (informational; never affects the exit code). A "false-alarm" entry is a defect of
+// the checker, not of the repository.
+func runBenign(prog *load.Program, root, verif string, selected []*core.Rule, base []core.Obligation) []seedResult {
+	baseBad := map[string]bool{}
+	for _, o := range base {
+		if o.Verdict == core.Violation || o.Verdict == core.Lost {
+			baseBad[o.Key()] = true
+		}
+	}
+	dirs, _ := filepath.Glob(filepath.Join(verif, "benign", "*"))
+	sort.Strings(dirs)
+	var out []seedResult
+	for _, d := range dirs {
+		res := seedResult{Name: filepath.Base(d), Rule: "*"}
+		files, err := patch.ApplyFile(filepath.Join(d, "patch.diff"), root)
+		if err != nil {
+			res.Status, res.Detail = "stale", err.Error()
+			out = append(out, res)
+			continue
+		}
+		mut, err := prog.MutateMany(files, res.Name)
+		if err != nil {
+			res.Status, res.Detail = "stale", err.Error()
+			out = append(out, res)
+			continue
+		}
+		res.Status = "silent"
+		var hits []string
+		for _, r := range selected {
+			ctx := core.RunRule(mut, r)
+			n := 0
+			for _, o := range ctx.Obs {
+				if o.Verdict != core.Lost {
+					n++
+				}
+				if (o.Verdict == core.Violation || o.Verdict == core.Lost) && !baseBad[o.Key()] {
+					hits = append(hits, o.Key())
+				}
+			}
+			if n < r.Floor {
+				hits = append(hits, r.ID+":below-floor")
+			}
+		}
+		rules.Forget(mut)
+		if len(hits) > 0 {
+			res.Status = "false-alarm"
 			res.Detail = strings.Join(hits, " | ")
 		}
 		out = append(out, res)
